@@ -3,7 +3,7 @@
    PegGrammar.v by tools/pegread from grammar/grammar.peg; the two readers share no code.  Both files are regenerated
    from /repo on every run, so these equalities are re-checked by the kernel against the current sources. *)
 From Coq Require Import List String Bool.
-From Bexpr Require Import Base Ast Unicode Peg GoGrammar PegGrammar.
+From Bexpr Require Import Base Ast Unicode Peg GoGrammar PegGrammar ActionsPinned Canon.
 Import ListNotations.
 Open Scope string_scope.
 
@@ -33,17 +33,7 @@ Proof.
   unfold wrappers_ok in W. rewrite forallb_forall in W. apply W in H. apply strs_eqb_eq. exact H.
 Qed.
 
-(* the code blocks referenced by the table are exactly the action functions, in the same order: one-to-one *)
-Fixpoint code_ids (e : pexpr) : list string :=
-  match e with
-  | PAction id e' => id :: code_ids e'
-  | PAndCode id | PNotCode id => [id]
-  | PAnd e' | PNot e' | PLabeled _ e' | PStar e' | PPlus e' | POpt e' => code_ids e'
-  | PChoice l | PSeq l => flat_map code_ids l
-  | PAny | PClass _ | PLit _ _ | PRef _ => []
-  end.
-(* pigeon emits the on*/callon* functions in the order in which it visits the code-block nodes, rule by rule in
-   pre-order; code_ids lists the blocks of an expression in that order. *)
+(* code_ids (Canon.v) lists the code blocks of an expression in the order pigeon emits their functions *)
 Definition table_code_ids (g : list rule) : list string := flat_map (fun r => code_ids (rexpr r)) g.
 Lemma actions_one_to_one :
   table_code_ids go_grammar = map (fun a => match a with (n, _, _, _) => n end) go_actions
